@@ -972,13 +972,18 @@ class _Rig:
         rec['ev'] = 'e2e'
         iserr = rec['op'] in ('readerr', 'writeerr')
         res, e, rec['attempts'] = _attempt(fn, before=self.drv.rec.clear)
+        txt = None
         if e is None:
-            rec['cache'] = conv(res)
+            try:
+                rec['cache'] = conv(res)
+            except Exception as x:      # e.g. nothing cached at all: an outcome of the implementation, not of the harness
+                txt = '?unusable result %r (%r)' % (res, x)
         else:
             txt = '?raised %r' % (e,)
-            rec['cache'] = {'cls': txt, 'text': ''} if iserr else {'j': 'atom', 'v': txt}
             if isinstance(e, TRANSIENT):
                 self.slow[path] = 1
+        if txt:
+            rec['cache'] = {'cls': txt, 'text': ''} if iserr else {'j': 'atom', 'v': txt}
         if received:
             tag, name, base = received
             got = [r for r in self.drv.rec if r[0] == tag and r[1] == name]
@@ -1000,7 +1005,10 @@ class _Rig:
     def observe(self, rec, client, mod, base):
         rec['ev'] = 'e2e'
         item = client.cache.get((mod, rec['kind']))
-        rec['cache'] = self.item(base)(item) if item is not None else {'j': 'atom', 'v': '?not cached'}
+        if base is None:      # an error is expected
+            rec['cache'] = self.readerror(item) if item is not None else {'cls': '?not cached', 'text': ''}
+        else:
+            rec['cache'] = self.item(base)(item) if item is not None else {'j': 'atom', 'v': '?not cached'}
         rec['attempts'] = 1
         self.records.append(rec)
 
@@ -1045,7 +1053,7 @@ def _e2e_batch(arg):
     clients = {}
     try:
         clients = {'direct': (_client(n1.port, False), 'drv'), 'direct_active': (_client(n1.port, True), 'drv'),
-                   'proxy': (_client(n2.port, rnd.random() < 0.5), 'px')}
+                   'proxy': (_client(n2.port, seed % 2 == 0), 'px')}
         deadline = _time.time() + 20
         pxclient = n2.modules['px_io'].secnode
         while not pxclient.online or pxclient.state != 'connected':
@@ -1123,8 +1131,13 @@ def _e2e_batch(arg):
             c, mod = clients['direct']
             rig.request({'op': 'readerr', 'kind': kind, 'path': 'direct', 'raised': raised},
                         lambda: c.readParameter(mod, kind), rig.readerror)
+            c, mod = clients['direct_active']
+            if rig.fence('direct_active', c):     # the error update reached the activated client
+                rig.observe({'op': 'readerr', 'kind': kind, 'path': 'direct_active', 'raised': raised}, c, mod, None)
             c, mod = clients['proxy']
             if rig.fence('proxy', pxclient):
+                if active2 and rig.fence('proxy', c):     # ... and, through the proxy module, the client behind it
+                    rig.observe({'op': 'readerr', 'kind': kind, 'path': 'proxy', 'raised': raised, 'how': 'update'}, c, mod, None)
                 rig.request({'op': 'readerr', 'kind': kind, 'path': 'proxy', 'raised': raised},
                             lambda: c.readParameter(mod, kind), rig.readerror)
             for path in ('direct', 'proxy'):
@@ -1258,7 +1271,7 @@ def run(chk):
     aborted = [n['aborted'] for _, n in e2e if n.get('aborted')]
     lap('end_to_end')
     records = [r for recs, _ in e2e for r in recs]
-    e2e_traces = [[{k: v for k, v in r.items() if k not in ('concrete', 'attempts')}] for r in records]   # one record = one trace
+    e2e_traces = [[{k: v for k, v in r.items() if k not in ('concrete', 'attempts', 'how')}] for r in records]   # one record = one trace
     n0 = e2e[0][1] if e2e else {}
     if n0.get('proxy_class_error'):
         chk.violation({'module': 'E2E', 'site': 'proxy_class', 'clause': 'a command with a struct argument can be proxied'},
